@@ -7,8 +7,8 @@ import FuModel.Proofs.WalkOnce
 Model: `Find/Walk.lean` (walkdir's `IntoIter::next` as a step machine with its two stacks, and
 `process_dir`'s loop with the depth guard).  Reference: `Spec/WalkRef.lean` (plain recursive
 descent written from the property text).  The theorems here hold for every tree, every
-evaluator and every configuration; `HRootLink` is the one configuration in which they do not
-(see C03 and the known finding).
+evaluator and every configuration (`HRootLink`, a link starting point under -H in post-order, was
+the one exception - a known finding - until `/repo` c5fa7bc; `C02_refines_post_any` has none).
 -/
 namespace FuModel.Find.Walk
 variable {α σ : Type}
@@ -54,9 +54,8 @@ theorem C02_empty_range (c : RefCfg) (ev : Visit α → σ → EvalOut × σ) (h
     `pathsN` of in-range entries reachable under the follow mode, and — the names inside every
     directory being distinct, as in a file system — that list has no repetition: every in-range entry
     is evaluated once, none twice, none outside the range.  Holds for every tree, every depth range
-    and the three follow modes; in post-order except for the one configuration of the known finding. -/
-theorem C02_exactly_once (c : RefCfg) (root : Node α) (hd : distinctN root)
-    (hcfg : c.depthFirst = false ∨ ¬ HRootLink c root) :
+    and the three follow modes, in pre-order and in post-order. -/
+theorem C02_exactly_once (c : RefCfg) (root : Node α) (hd : distinctN root) :
     (processRoot c logEv root []).st = pathsN c [] 0 root ∧ (pathsN c [] 0 root).Nodup := by
   refine ⟨?_, pathsN_nodup c [] 0 root hd⟩
   have hlog := refNode_log c [] 0 root ⟨[], 0, 0⟩
@@ -67,10 +66,8 @@ theorem C02_exactly_once (c : RefCfg) (root : Node α) (hd : distinctN root)
       intro v s h; simp [logEv] at h
     rw [C02_refines_pre c logEv hdf hp root []]
     simpa [resOf] using href
-  · rcases hcfg with h | h
-    · rw [hdf] at h; cases h
-    · rw [C02_refines_post c logEv hdf root h []]
-      simpa [resOf] using href
+  · rw [C02_refines_post_any c logEv hdf root []]
+    simpa [resOf] using href
 
 /-- every recorded path lies below the starting point it was reached from: it extends the path
     of the node whose subtree produced it -/
